@@ -146,11 +146,14 @@ func parseStrace(path string, under string) ([]sysCall, error) {
 // where the recorded paths below recRoot are mapped below dir.
 func applyCalls(calls []sysCall, n int, tear int, recRoot, dir string) error {
 	mapPath := func(p string) string { return filepath.Join(dir, strings.TrimPrefix(p, recRoot)) }
-	type ofile struct {
-		path string
-		off  int64
-	}
-	open := map[int]*ofile{}
+	// the replay keeps real descriptors open, so a write lands in the file the descriptor refers to even if that file was
+	// renamed or unlinked in between (as in the recorded process)
+	open := map[int]*os.File{}
+	defer func() {
+		for _, f := range open {
+			f.Close() // the crash: descriptors vanish, what was written stays
+		}
+	}()
 	apply := func(c sysCall, limit int) error {
 		switch c.Name {
 		case "open":
@@ -162,34 +165,33 @@ func applyCalls(calls []sysCall, n int, tear int, recRoot, dir string) error {
 			if c.Trunc {
 				flags |= os.O_TRUNC
 			}
+			if c.Append {
+				flags |= os.O_APPEND
+			}
 			f, err := os.OpenFile(p, flags, 0644)
 			if err != nil {
 				return err
 			}
-			st, _ := f.Stat()
-			f.Close()
-			of := &ofile{path: p}
-			if c.Append {
-				of.off = st.Size()
+			if old := open[c.FD]; old != nil {
+				old.Close()
 			}
-			open[c.FD] = of
+			open[c.FD] = f
 		case "write":
-			of := open[c.FD]
-			if of == nil {
+			f := open[c.FD]
+			if f == nil {
 				return fmt.Errorf("write to unknown fd %d", c.FD)
 			}
 			data := c.Data
 			if limit >= 0 && limit < len(data) {
 				data = data[:limit]
 			}
-			f, err := os.OpenFile(of.path, os.O_WRONLY, 0644)
-			if err != nil {
+			if _, err := f.Write(data); err != nil {
 				return err
 			}
-			f.WriteAt(data, of.off)
-			f.Close()
-			of.off += int64(len(data))
 		case "close":
+			if f := open[c.FD]; f != nil {
+				f.Close()
+			}
 			delete(open, c.FD)
 		case "rename":
 			return os.Rename(mapPath(c.Path), mapPath(c.Path2))
@@ -259,6 +261,8 @@ func childOp(op, mbox string, size int) int {
 		}
 	case "SetSent":
 		h.SetSent("OLDOUT000001", false)
+	case "SetSentRejected": // the peer answered "already received"
+		h.SetSent("OLDOUT000001", true)
 	case "SetUnread":
 		msgs, err := h.Inbox()
 		if err != nil {
@@ -356,7 +360,7 @@ func recoverCheck(dir string, op string, size int, old map[string][]byte) (ev re
 	}
 	// every message stored before the interrupted operation is intact (the one being rewritten is judged separately)
 	intact := true
-	touched := map[string]string{"SetUnread": "in/OLDIN0000001.b2f", "SetSent": "out/OLDOUT000001.b2f", "ReceiveAgain": "in/OLDIN0000001.b2f"}[op]
+	touched := map[string]string{"SetUnread": "in/OLDIN0000001.b2f", "SetSent": "out/OLDOUT000001.b2f", "SetSentRejected": "out/OLDOUT000001.b2f", "ReceiveAgain": "in/OLDIN0000001.b2f"}[op]
 	for rel, want := range old {
 		if rel == touched {
 			continue
@@ -440,7 +444,7 @@ func MainCrash(args []string) int {
 		return 2
 	}
 	defer w.Close()
-	ops := []string{"ProcessInbound", "AddOut", "SetSent", "SetUnread", "ReceiveAgain"}
+	ops := []string{"ProcessInbound", "AddOut", "SetSent", "SetSentRejected", "SetUnread", "ReceiveAgain"}
 	sizes := []int{300}
 	if *stride == 1 {
 		sizes = []int{40, 300, 3000}
